@@ -188,6 +188,16 @@ def _run(ctx: C.Ctx):
                     ctx.count("sspor:basis_object_shared_with_a_later_model")
                 except ValueError:
                     pass
+            if rng.random() < 0.35:
+                # the cheap re-ranking on the first k modes, then the model is stored and loaded again / copied (pickle, deepcopy, copy):
+                # what comes back pairs the same ranking with the same basis matrix
+                from .. import sspor_hist as H
+                if rng.random() < 0.7 and int(model.basis_matrix_.shape[1]) > 1:
+                    model.update_n_basis_modes(rng.randint(1, int(model.basis_matrix_.shape[1]) - 1), quiet=True)
+                    ctx.count("sspor:fewer_modes_without_basis_refit")
+                how = rng.choice(H.COPY_KINDS)
+                model = H.copy_model(model, how)
+                ctx.count("sspor:judged_on_a_copy:" + how)
         except ValueError:
             ctx.count("sspor_rejected")
             continue
